@@ -22,7 +22,7 @@ INNER = [
     'SELECT a, b FROM #u',
     'SELECT b AS a, a AS b FROM #t',
 ]
-OUTER = ['*', '{0}', '{0}, {1}', '{1}, {0}', 'count(*)', '{0}, count(*)', '{0} ORDERBY', '{0} WHERE']
+OUTER = ['*', '{0}', '{0}, {1}', '{1}, {0}', 'count(*)', '{0}, count(*)', '{0} ORDERBY', '{0} WHERE', '{0} ORDERBY1', '{0} ORDERBY1 LIMIT']
 
 
 def conn():
@@ -34,6 +34,9 @@ def outer_query(form, names, src):
     n1 = names[1] if len(names) > 1 else names[0]
     if form == '*': return f'SELECT * FROM {src}'
     if form == '{0} ORDERBY': return f'SELECT {n0} FROM {src} ORDER BY {n1} DESC, {n0}'
+    # one sort key with ties: rows that tie keep the order the subquery delivered them in (the sort is stable)
+    if form == '{0} ORDERBY1': return f'SELECT {n0}, {n1} FROM {src} ORDER BY {n0}'
+    if form == '{0} ORDERBY1 LIMIT': return f'SELECT {n1}, {n0} FROM {src} ORDER BY {n0} DESC LIMIT 3'
     if form == '{0} WHERE': return f'SELECT {n0}, {n1} FROM {src} WHERE {n0} IS NOT NULL'
     return 'SELECT ' + form.format(n0, n1) + f' FROM {src}'
 
@@ -70,6 +73,25 @@ def check(case):
         return ('FROM (subquery) equals the outer query over a table holding the subquery rows (names, datatypes, rows)', {'query': q1},
                 ([(d.name, d.datatype.__name__) for d in d1], rows1), ([(d.name, d.datatype.__name__) for d in d2], rows2))
     return None
+
+
+def check_repeated_names(res):
+    """a subquery that repeats an output name: every other column still reads its own position"""
+    c = conn()
+    for inner, col, idx in [('SELECT a, a, b FROM #t', 'b', 2), ('SELECT a AS k, c AS k, b, a AS z FROM #t', 'z', 3), ('SELECT b, a, b, c FROM #t', 'c', 3),
+                            ('SELECT a, a, b FROM #t', 'length(b)', None)]:
+        res.case(('repeated-names', inner, col), {'inner': inner, 'column': col})
+        try:
+            irows = c.execute(inner).fetchall()
+            got = c.execute(f'SELECT {col} FROM ({inner})').fetchall()
+        except Exception as e:  # noqa
+            res.violation('h08:repeated-names:' + inner + ':' + col, 'a column of a subquery with repeated output names is read from its own position',
+                          {'inner': inner, 'column': col}, f'{type(e).__name__}: {e}', 'rows')
+            continue
+        want = [(r[idx],) for r in irows] if idx is not None else [(None if r[2] is None else len(r[2]),) for r in irows]
+        if [tuple(r) for r in got] != want:
+            res.violation('h08:repeated-names:' + inner + ':' + col, 'a column of a subquery with repeated output names is read from its own position',
+                          {'inner': inner, 'column': col}, got[:4], want[:4])
 
 
 IN_CASES = [
@@ -153,6 +175,7 @@ def run(tier, seed):
             clause, cse, obs, exp = bad
             res.violation('h08:in:' + cse['query'][:110], clause, cse, obs, exp)
     special(res)
+    check_repeated_names(res)
     return res.asdict()
 
 
